@@ -186,7 +186,7 @@ def main():
   seed = int(os.environ.get('VERIF_SEED', '0'))
   rng = random.Random(seed * 2750159 + 37)
   t0 = time.time()
-  n_models = 350 if tier == 'thorough' else 60
+  n_models = 1500 if tier == 'thorough' else 150
   viol = []
   dist = collections.Counter()
   nontrivial = set()
